@@ -1,7 +1,7 @@
 (* C05 proofs, part C: where PIECE messages come from (piece_answers_request), what a written
    CHOKE does (choke_clears), what an invalid head of queue does (bad_request_closes_or_ignored). *)
 From Coq Require Import List NArith ZArith Bool Lia Arith.
-From LTV.C05 Require Import ParamsGen Model Proofs.
+From LTV.C05 Require Import Model Proofs.
 Import ListNotations.
 Local Open Scope N_scope.
 
@@ -10,34 +10,38 @@ Section ProofsB.
   Variable content : N -> N -> N.
   Variable enc : bool.
   Variable ks : N -> N.
+  Variable P : policy.
 
   Notation fill := (fill L enc ks).
+  Notation keepalive := (keepalive enc ks).
   Notation ew := (ew L content enc ks).
-  Notation step := (step L content enc ks).
-  Notation run := (run L content enc ks).
-  Notation run_from := (run_from L content enc ks).
+  Notation step := (step L content enc ks P).
+  Notation run := (run L content enc ks P).
+  Notation run_from := (run_from L content enc ks P).
   Notation up_chunk := (up_chunk content enc ks).
   Notation up_chunk_same := (up_chunk_same content enc ks).
+  Notation keepalive_qm := (keepalive_qm enc ks).
 
-  Ltac sel := cbn [set_ws write_buf write_payload choked queue obuf msgs out last_piece cur closed ws send_choked ebuf eb_end kpos upc load_chunk].
+  Ltac sel := cbn [set_ws set_tq write_buf write_payload choked queue obuf msgs out last_piece cur closed ws send_choked ebuf eb_end kpos upc tq load_chunk].
+
+  Ltac fill_cases s :=
+    unfold Model.fill; cbv zeta;
+    destruct (send_choked s && (5 <=? room s)) eqn:Hdc; cbn [andb negb];
+    destruct (choked s) eqn:Hc; cbn [andb];
+    try (destruct (queue s) as [|x q'] eqn:Hq); cbn [andb];
+    try (destruct (13 <=? _) eqn:H13);
+    try (match goal with |- context [servable L ?y] => destruct (servable L y) eqn:Hv end);
+    unfold Model.buffered; sel.
 
   (* ---------- provenance of queue entries and PIECE messages ---------- *)
   Lemma fill_queue_sub : forall s p, In p (queue (fill s)) -> In p (queue s).
   Proof.
-    intros s p. unfold Model.fill.
-    destruct (send_choked s), (choked s); sel;
-      try (destruct (queue s) as [|x q'] eqn:Hq; sel);
-      try (destruct (is_valid_piece L x && l_completed L (p_index x)); sel);
-      cbn [In]; try tauto; try (rewrite Hq; cbn [In]; tauto).
+    intros s p. fill_cases s; cbn [In]; try tauto; try (rewrite Hq; cbn [In]; tauto).
   Qed.
 
   Lemma fill_msgs_sub : forall s p, In (MPiece p) (msgs (fill s)) -> In (MPiece p) (msgs s) \/ In p (queue s).
   Proof.
-    intros s p. unfold Model.fill.
-    destruct (send_choked s), (choked s); sel;
-      try (destruct (queue s) as [|x q'] eqn:Hq; sel);
-      try (destruct (is_valid_piece L x && l_completed L (p_index x)); sel);
-      cbn [In]; try tauto;
+    intros s p. fill_cases s; cbn [In]; try tauto;
       intros H; repeat (destruct H as [H|H]); try discriminate H; try (left; exact H);
       try (inversion H; subst; right; left; reflexivity).
   Qed.
@@ -48,13 +52,14 @@ Section ProofsB.
   Proof.
     induction f as [|f IH]; intros k s p; cbn [Model.ew]; [tauto|].
     destruct (ws s).
-    - destruct (closed (fill s)).
-      + split; [apply fill_queue_sub | apply fill_msgs_sub].
-      + destruct (obuf (fill s)).
-        * split; [apply fill_queue_sub | apply fill_msgs_sub].
-        * destruct (IH k (set_ws (fill s) Msg) p) as [A B]. revert A B; sel; intros A B. split.
-          -- intro H. apply fill_queue_sub, A, H.
-          -- intro H. destruct (B H) as [H1|H1]; [apply fill_msgs_sub, H1 | right; apply fill_queue_sub, H1].
+    - assert (Hbase : (In p (queue (fill s)) -> In p (queue s)) /\
+                      (In (MPiece p) (msgs (fill s)) -> In (MPiece p) (msgs s) \/ In p (queue s)))
+        by (split; [apply fill_queue_sub | apply fill_msgs_sub]).
+      destruct (closed (fill s)); [exact Hbase|].
+      destruct (ws (fill s)); try exact Hbase.
+      destruct (IH k (fill s) p) as [A B]. split.
+      + intro H. apply fill_queue_sub, A, H.
+      + intro H. destruct (B H) as [H1|H1]; [apply fill_msgs_sub, H1 | right; apply fill_queue_sub, H1].
     - destruct (N.min k (N.of_nat (length (obuf s))) =? 0); [tauto|].
       destruct (obuf (write_buf s _)); [|unfold write_buf; sel; tauto].
       destruct (last_piece (write_buf s _));
@@ -70,25 +75,31 @@ Section ProofsB.
   Lemma step_queue : forall s o p, In p (queue (step s o)) ->
     In p (queue s) \/ (o = RecvRequest p /\ choked s = false /\ closed s = false).
   Proof.
-    intros s o p. destruct o as [r|r|c|k]; cbn [Model.step].
+    intros s o p. destruct o as [r|r|c|k|t|]; cbn [Model.step].
     - unfold recv_request. destruct (closed s) eqn:Hc; [tauto|].
       destruct (choked s) eqn:Hch; cbn [orb]; [tauto|].
-      destruct ((Params.c05_max_request_queue <=? N.of_nat (length (queue s))) || (Params.c05_request_len_limit <? p_len r)); [tauto|].
+      destruct ((qlimit P <=? N.of_nat (length (queue s))) || (lenlimit P <? p_len r)); [tauto|].
+      destruct (eager_drop L P r); [tauto|].
       destruct (existsb (piece_eqb r) (queue s)); [tauto|]. sel.
       rewrite in_app_iff. cbn [In]. intros [H|[H|[]]]; [tauto|]. subst. right. auto.
     - unfold recv_cancel. destruct (closed s); [tauto|]. sel. intro H. left. eapply remove_first_sub, H.
     - unfold decide. destruct (closed s); [tauto|]. destruct (Bool.eqb c (choked s)); sel; tauto.
     - destruct (closed s); [tauto|]. intro H. left. apply (proj1 (ew_sub (ew_fuel s) k s p)), H.
+    - destruct (closed s); sel; tauto.
+    - destruct (keepalive_qm s) as (Q & _). rewrite Q. tauto.
   Qed.
 
   Lemma step_msgs : forall s o p, In (MPiece p) (msgs (step s o)) -> In (MPiece p) (msgs s) \/ In p (queue s).
   Proof.
-    intros s o p. destruct o as [r|r|c|k]; cbn [Model.step].
+    intros s o p. destruct o as [r|r|c|k|t|]; cbn [Model.step].
     - unfold recv_request. destruct (closed s); [tauto|]. destruct (choked s || _ || _); [tauto|].
-      destruct (existsb _ _); sel; tauto.
+      destruct (eager_drop L P r); [tauto|]. destruct (existsb _ _); sel; tauto.
     - unfold recv_cancel. destruct (closed s); sel; tauto.
     - unfold decide. destruct (closed s); [tauto|]. destruct (Bool.eqb c (choked s)); sel; tauto.
     - destruct (closed s); [tauto|]. apply (proj2 (ew_sub (ew_fuel s) k s p)).
+    - destruct (closed s); sel; tauto.
+    - destruct (keepalive_qm s) as (_ & _ & _ & _ & _ & [M|M]); rewrite M; cbn [In]; [tauto|].
+      intros [H|H]; [discriminate H | tauto].
   Qed.
 
   Definition requested_in (s : st) (ops : list op) (p : piece) : Prop :=
@@ -135,7 +146,7 @@ Section ProofsB.
   (* ---------- choke_clears ---------- *)
   Lemma fill_quiet : forall s, choked s = true -> send_choked s = false ->
     msgs (fill s) = msgs s /\ queue (fill s) = queue s /\ choked (fill s) = true /\ send_choked (fill s) = false.
-  Proof. intros s Hc Hs. unfold Model.fill. rewrite Hs, Hc. sel. auto. Qed.
+  Proof. intros s Hc Hs. unfold Model.fill. cbv zeta. rewrite Hs, Hc. cbn [andb]. unfold Model.buffered; sel. auto. Qed.
 
   Lemma ew_choked_quiet : forall f k s, choked s = true -> send_choked s = false ->
     msgs (ew f k s) = msgs s /\ queue (ew f k s) = queue s.
@@ -143,8 +154,8 @@ Section ProofsB.
     induction f as [|f IH]; intros k s Hc Hs; cbn [Model.ew]; [tauto|].
     destruct (ws s).
     - destruct (fill_quiet s Hc Hs) as (M & Q & C & S). destruct (closed (fill s)); [tauto|].
-      destruct (obuf (fill s)); [tauto|].
-      destruct (IH k (set_ws (fill s) Msg)) as [A B]; sel; try assumption. revert A B; sel. rewrite M, Q. tauto.
+      destruct (ws (fill s)); try tauto.
+      destruct (IH k (fill s) C S) as [A B]. rewrite A, B. tauto.
     - destruct (N.min k (N.of_nat (length (obuf s))) =? 0); [tauto|].
       destruct (obuf (write_buf s _)); [|unfold write_buf; sel; tauto].
       destruct (last_piece (write_buf s _));
@@ -160,20 +171,13 @@ Section ProofsB.
     ((m1 = [MChoke true] /\ choked (fill s) = true /\ send_choked (fill s) = false /\ queue (fill s) = [])
      \/ ~ In (MChoke true) m1).
   Proof.
-    intros s. unfold Model.fill.
-    destruct (send_choked s) eqn:Hs, (choked s) eqn:Hc; sel.
-    - exists [MChoke true]. split; [reflexivity|]. left. repeat split; reflexivity.
-    - destruct (queue s) as [|x q']; sel.
-      + exists [MChoke false]. split; [reflexivity|]. right. cbn [In]. intros [H|[]]. discriminate H.
-      + destruct (is_valid_piece L x && l_completed L (p_index x)); sel.
-        * exists [MPiece x; MChoke false]. split; [reflexivity|]. right. cbn [In]. intros [H|[H|[]]]; discriminate H.
-        * exists []. split; [reflexivity|]. right. cbn [In]. tauto.
-    - exists []. split; [reflexivity|]. right. cbn [In]. tauto.
-    - destruct (queue s) as [|x q']; sel.
-      + exists []. split; [reflexivity|]. right. cbn [In]. tauto.
-      + destruct (is_valid_piece L x && l_completed L (p_index x)); sel.
-        * exists [MPiece x]. split; [reflexivity|]. right. cbn [In]. intros [H|[]]. discriminate H.
-        * exists []. split; [reflexivity|]. right. cbn [In]. tauto.
+    intros s. fill_cases s;
+      first
+      [ exists [MChoke true]; split; [reflexivity|]; left; repeat split; first [reflexivity | assumption | apply andb_false_r]
+      | exists [MChoke false]; split; [reflexivity|]; right; cbn [In]; intros [H|[]]; discriminate H
+      | eexists [MPiece _; MChoke false]; split; [reflexivity|]; right; cbn [In]; intros [H|[H|[]]]; discriminate H
+      | eexists [MPiece _]; split; [reflexivity|]; right; cbn [In]; intros [H|[]]; discriminate H
+      | exists []; split; [reflexivity|]; right; cbn [In]; tauto ].
   Qed.
 
   Definition choke_last (m : list msg) (q : list piece) : Prop :=
@@ -188,11 +192,11 @@ Section ProofsB.
       assert (Hdone : exists m, msgs (fill s) = m ++ msgs s /\ choke_last m (queue (fill s))).
       { exists m1. split; [exact Hm1|]. intro Hin. destruct Hsh as [(E & _ & _ & Hq)|Hn]; [|contradiction].
         split; [exact Hq|]. exists []. exact E. }
-      destruct (closed (fill s)); [exact Hdone|]. destruct (obuf (fill s)); [exact Hdone|].
+      destruct (closed (fill s)); [exact Hdone|]. destruct (ws (fill s)); try exact Hdone.
       destruct Hsh as [(E & Hc & Hs & Hq)|Hn].
-      + destruct (ew_choked_quiet f k (set_ws (fill s) Msg) Hc Hs) as [Hm Hqq]. revert Hm Hqq; sel; intros Hm Hqq.
+      + destruct (ew_choked_quiet f k (fill s) Hc Hs) as [Hm Hqq].
         exists m1. rewrite Hm, Hqq. split; [exact Hm1|]. intros _. split; [exact Hq|]. exists []. exact E.
-      + destruct (IH k (set_ws (fill s) Msg)) as (m2 & Hm2 & Hcl). revert Hm2; sel; intro Hm2.
+      + destruct (IH k (fill s)) as (m2 & Hm2 & Hcl).
         exists (m2 ++ m1). split; [rewrite Hm2, Hm1, app_assoc; reflexivity|].
         intro Hin. apply in_app_or in Hin. destruct Hin as [Hin|Hin]; [|contradiction].
         destruct (Hcl Hin) as (Hq & m' & E). split; [exact Hq|]. exists (m' ++ m1). rewrite E. reflexivity.
@@ -227,46 +231,53 @@ Section ProofsB.
 
   (* ---------- bad requests ---------- *)
   Theorem request_ignored : forall s p,
-    choked s = true \/ Params.c05_request_len_limit < p_len p \/
-    Params.c05_max_request_queue <= N.of_nat (length (queue s)) \/ In p (queue s) ->
+    choked s = true \/ lenlimit P < p_len p \/
+    qlimit P <= N.of_nat (length (queue s)) \/ In p (queue s) \/ eager_drop L P p = true ->
     step s (RecvRequest p) = s.
   Proof.
     intros s p H. cbn [Model.step]. unfold recv_request. destruct (closed s); [reflexivity|].
     destruct (choked s) eqn:Hc; cbn [orb]; [reflexivity|].
-    destruct (Params.c05_max_request_queue <=? N.of_nat (length (queue s))) eqn:Hq; cbn [orb]; [reflexivity|].
-    destruct (Params.c05_request_len_limit <? p_len p) eqn:Hl; [reflexivity|].
+    destruct (qlimit P <=? N.of_nat (length (queue s))) eqn:Hq; cbn [orb]; [reflexivity|].
+    destruct (lenlimit P <? p_len p) eqn:Hl; [reflexivity|].
+    destruct (eager_drop L P p) eqn:Hd; [reflexivity|].
     destruct (existsb (piece_eqb p) (queue s)) eqn:He; [reflexivity|].
-    exfalso. destruct H as [H|[H|[H|H]]].
+    exfalso. destruct H as [H|[H|[H|[H|H]]]].
     - discriminate H.
     - apply N.ltb_ge in Hl. lia.
     - apply N.leb_gt in Hq. lia.
     - revert H. apply (existsb_piece p (queue s) He).
+    - discriminate H.
   Qed.
 
-  (* the writer meets an invalid or unverified head of queue: connection closed, nothing sent for
-     it, not even what the same fill had just buffered *)
+  (* the writer meets an unservable head of queue (possible only under a policy that queues such
+     requests): connection closed, nothing sent for it, not even what the same fill had just buffered *)
   Theorem bad_head_closes : forall s p q,
     ws s = Idle -> closed s = false -> choked s = false -> queue s = p :: q ->
-    is_valid_piece L p && l_completed L (p_index p) = false ->
+    (13 <=? room s - (if send_choked s && (5 <=? room s) then 5 else 0)) = true ->
+    servable L p = false ->
     forall k, let s' := step s (WriteReady k) in
     closed s' = true /\ out s' = out s /\ msgs s' = msgs s.
   Proof.
-    intros s p q Hws Hcl Hch Hq Hbad k. cbn zeta. cbn [Model.step]. rewrite Hcl.
+    intros s p q Hws Hcl Hch Hq Hroom Hbad k. cbn zeta. cbn [Model.step]. rewrite Hcl.
     replace (ew_fuel s) with (S (13 * length (queue s) + 29))%nat by (unfold ew_fuel; lia).
     cbn [Model.ew]. rewrite Hws.
     assert (E : closed (fill s) = true /\ out (fill s) = out s /\ msgs (fill s) = msgs s).
-    { unfold Model.fill. destruct (send_choked s); sel; rewrite ?Hch; sel; rewrite Hq; sel; rewrite Hbad; sel; auto. }
+    { unfold Model.fill. cbv zeta. rewrite Hch, Hq. cbn [andb].
+      destruct (send_choked s && (5 <=? room s)); cbn [andb];
+        (replace (len (enc_choke false)) with 5 by reflexivity || idtac);
+        rewrite ?len_nil; rewrite Hroom || (rewrite N.sub_0_r in Hroom; rewrite N.sub_0_r, Hroom);
+        rewrite Hbad; sel; auto. }
     destruct E as (E1 & E2 & E3). rewrite E1. auto.
   Qed.
 
   Theorem closed_inert : forall s o, closed s = true -> step s o = s.
   Proof.
-    intros s o Hc. destruct o; cbn [Model.step]; unfold recv_request, recv_cancel, decide; rewrite Hc; reflexivity.
+    intros s o Hc. destruct o; cbn [Model.step]; unfold recv_request, recv_cancel, decide, Model.keepalive; rewrite Hc; reflexivity.
   Qed.
 
   Theorem closed_forever : forall ops1 ops2, closed (run ops1) = true -> run (ops1 ++ ops2) = run ops1.
   Proof.
-    intros ops1 ops2 Hc. unfold Model.run. rewrite fold_left_app. fold (Model.run L content enc ks ops1).
+    intros ops1 ops2 Hc. unfold Model.run. rewrite fold_left_app. fold (Model.run L content enc ks P ops1).
     induction ops2 as [|o ops2 IH]; [reflexivity|]. cbn [fold_left]. rewrite closed_inert by exact Hc. exact IH.
   Qed.
 End ProofsB.
